@@ -51,6 +51,19 @@ func VarArgs(call *ssa.CallCommon) []ssa.Value {
 	return out
 }
 
+// CalleeName0 names the callee of a call instruction: the static callee's
+// CalleeName (generic instantiations keep their type arguments as a suffix),
+// the builtin's name, or "" for dynamic calls.
+func CalleeName0(call *ssa.Call) string {
+	if b, ok := call.Call.Value.(*ssa.Builtin); ok {
+		return b.Name()
+	}
+	if f := StaticCallee(&call.Call); f != nil {
+		return CalleeName(f)
+	}
+	return ""
+}
+
 // ConstString returns the value of a string constant.
 func ConstString(v ssa.Value) (string, bool) {
 	c, ok := Strip(v).(*ssa.Const)
